@@ -101,11 +101,6 @@ def check(ctx: Ctx) -> None:
     cfg = build_cfg(repo, uload, Oracle(repo, uload, precise=True,
                                         call_raises=lambda c, f: [("_Stop", True), ("LoadError", True)] if unparse(c.func) in dispatch_names(repo) else None))
     with ctx.obligation("C13.b", "success-only-via-STOP") as ob:
-        rets = [n for n in cfg.nodes if n.kind == "stmt" and isinstance(n.ast, ast.Return) and n.id in cfg.live()]
-        ob.require(bool(rets), "no return in Unserializer.load")
-        for (p, lab) in cfg.pred[cfg.exit.id]:
-            if not isinstance(cfg.nodes[p].ast, ast.Return):
-                ob.violation(uload, cfg.nodes[p].ast, "Unserializer.load can complete without an explicit return (would return None for a truncated stream)")
         stop_loaders = [f for k, f in reg.items() if k == repo.cls("opcode").consts.get("STOP")]
         ob.require(len(stop_loaders) == 1, "STOP loader not registered")
         raisers = []
@@ -117,52 +112,68 @@ def check(ctx: Ctx) -> None:
         for f in raisers:
             if f is not stop_loaders[0]:
                 ob.violation(f, f.node, "_Stop is raised outside the loader registered for STOP: a stream can 'finish' without STOP")
-        for r in rets:
-            in_stop = any(isinstance(a, ast.ExceptHandler) and a.type is not None and unparse(a.type) == "_Stop" for a in repo.ancestors(r.ast))
-            atoms_ = guard_atoms(cfg, r.id)
-            from ..util import xtext
-            def _stack_len_is_one(t, pol):
-                if isinstance(t.ast, ast.Compare) and len(t.ast.ops) == 1:
-                    txt = xtext(repo, uload, t.ast).replace(" ", "")
-                    return (txt == "len(self.stack)==1" and pol) or (txt == "len(self.stack)!=1" and not pol)
-                return False
-            one = any((a.replace(" ", "") == "len(self.stack)==1" and pol) for a, pol, _ in atoms_) or any(
-                _stack_len_is_one(t, lab == "true") for (t, lab) in cfg.guards(r.id) if t.kind == "test")
-            ob.site(uload, r.ast, "return inside `except _Stop`, guarded by len(stack)==1", in_stop_handler=in_stop, guard=one)
-            if not in_stop:
-                ob.violation(uload, r.ast, "Unserializer.load returns a value outside the STOP handler")
+        # on value terms, along every feasible path of load() (helpers and simple generators inlined)
+        from ..terms import Evaluator as _Evaluator, const as _c, show as _show
+        evl = _Evaluator(repo, uload, cfg)
+        lheads = {n.id for n in cfg.nodes if n.kind in ("test", "for") and isinstance(n.owner, (ast.While, ast.For))}
+        load_paths = list(evl.run(back_stops=lheads, limit=40000))
+        nret = 0
+        for (pth, st) in load_paths:
+            if pth[-1][0] != cfg.exit.id:
+                continue
+            nret += 1
+            via_stop = any(cfg.nodes[nid].kind == "except" and isinstance(cfg.nodes[nid].ast, ast.ExceptHandler) and cfg.nodes[nid].ast.type is not None
+                           and unparse(cfg.nodes[nid].ast.type) == "_Stop" for (nid, _l) in pth)
+            STACK = st.env.get("self.stack", ("sym", "self.stack"))
+            one = any(v is True and t[0] == "cmp" and t[1] == "eq" and t[3] == _c(1) and t[2] == ("pcall", "len", (STACK,), ()) for (t, v) in st.cond)
+            pops = [e for e in st.events if e.kind == "call" and e.attr == "pop" and e.recv == STACK and e.args in ((_c(0),), ())]
+            single = st.ret is not None and (any(e.result == st.ret for e in pops) or st.ret in (("idx", STACK, _c(0)), ("idx", STACK, _c(-1))))
+            ob.site(uload, uload.node, "value returned only after _Stop, guarded by len(stack)==1", via_stop_handler=via_stop, guard=one, returns=_show(st.ret) if st.ret else None)
+            if st.ret is None:
+                ob.violation(uload, uload.node, "Unserializer.load can complete without an explicit return (would return None for a truncated stream)")
+                continue
+            if not via_stop:
+                ob.violation(uload, uload.node, "Unserializer.load returns a value outside the STOP handler")
             if not one:
-                ob.violation(uload, r.ast, "the value is returned without checking that exactly one object is on the stack")
-            if xtext(repo, uload, r.ast.value) not in ("self.stack.pop(0)", "self.stack.pop()", "self.stack[0]", "self.stack[-1]"):
-                ob.violation(uload, r.ast, "Unserializer.load does not return the single stack element")
+                ob.violation(uload, uload.node, "the value is returned without checking that exactly one object is on the stack")
+            if not single:
+                ob.violation(uload, uload.node, "Unserializer.load does not return the single stack element")
+        ob.require(nret >= 1, "no return in Unserializer.load")
 
     # ---- C13.c termination
     with ctx.obligation("C13.c", "terminates") as ob:
-        heads = [n for n in cfg.nodes if n.kind == "test" and isinstance(n.owner, ast.While)]
-        ob.require(len(heads) == 1, "dispatch loop not found")
-        head = heads[0]
-        reads = []
-        for n in cfg.nodes:
-            if n.kind == "stmt" and isinstance(n.ast, ast.Assign) and isinstance(n.ast.value, ast.Call) \
-                    and unparse(n.ast.value.func) == "self.stream.read" and repo.fold_in(n.ast.value.args[0], uload) == 1 \
-                    and any(isinstance(a, ast.While) for a in repo.ancestors(n.ast)):
-                var = unparse(n.ast.targets[0])
-                # emptiness test raising EOFError follows
-                for t in cfg.nodes:
-                    if t.kind == "test" and unparse(t.ast) == f"not {var}" and cfg.dominated_by(t.id, n.id):
-                        tru = [cfg.nodes[m] for (m, l) in cfg.succ[t.id] if l == "true"]
-                        if tru and all(isinstance(x.ast, ast.Raise) and unparse(x.ast.exc).startswith("EOFError") for x in tru):
-                            reads.append((n, t))
-        ob.require(bool(reads), "one-byte opcode read with EOF test not found in the dispatch loop")
-        body_succ = [m for (m, l) in cfg.succ[head.id] if l == "true"]
-        p = cfg.must_pass(body_succ, [head.id], {t.id for (_n, t) in reads})
-        ob.site(uload, head.ast, "every loop iteration reads one opcode byte and leaves on an empty read")
-        if p is not None:
-            ob.violation(uload, head.owner, "an iteration of the dispatch loop can complete without consuming input", path=cfg.describe_path(p))
-        dispatch = cfg_nodes_with_call(cfg, lambda c: unparse(c.func) in dispatch_names(repo))
-        for d in dispatch:
-            if not any(cfg.dominated_by(d.id, t.id) for (_n, t) in reads):
-                ob.violation(uload, d.ast, "a loader is dispatched without a preceding non-empty opcode read")
+        NUM2FUNC = ("sym", "self.num2func")
+        niter = neof = 0
+        read_vars: set[str] = set()
+        for (pth, st) in load_paths:
+            for e in st.events:
+                if e.kind == "assign" and e.value[0] == "fresh" and e.value[2] == "self.stream.read" and "." not in str(e.target):
+                    read_vars.add(e.target)
+        for (pth, st) in load_paths:
+            reads = [e for e in st.events if e.kind == "call" and e.callee == "self.stream.read" and e.args == (_c(1),)]
+            lookups_ = {e.result: e.args[0] for e in st.events if e.kind == "call" and e.callee == "self.num2func.get" and e.args}
+            disp = [e for e in st.events if e.kind == "call" and e.recv is not None and ((e.recv[0] == "idx" and e.recv[1] == NUM2FUNC) or e.recv in lookups_)]
+            for d in disp:
+                K = d.recv[2] if d.recv[0] == "idx" else lookups_[d.recv]
+                from_read = any(r.result == K for r in reads) or (K[0] == "havoc" and K[2] in read_vars)
+                nonempty = dict(st.cond[:d.ncond]).get(K) is True
+                if not (from_read and nonempty):
+                    ob.violation(uload, d.node, "a loader is dispatched without a preceding non-empty opcode read")
+            end_ = pth[-1][0]
+            if end_ in lheads and pth[-1][1] != "" and disp:
+                niter += 1
+                # a complete trip round the dispatch loop consumes one opcode byte
+                if not reads:
+                    ob.violation(uload, disp[0].node, "an iteration of the dispatch loop can complete without consuming input", path=cfg.describe_path(pth))
+            empties = [r for r in reads if st.known.get(r.result) is False]
+            if empties:
+                neof += 1
+                rs = [e for e in st.events if e.kind == "raise"]
+                ok = cfg.nodes[end_].kind == "raise" and rs and rs[-1].value[0] == "fresh" and rs[-1].value[2] == "EOFError" and not any(st.events.index(d) > st.events.index(empties[0]) for d in disp)
+                if not ok:
+                    ob.violation(uload, empties[0].node, "an empty opcode read (end of input) does not end load() with EOFError")
+        ob.site(uload, uload.node, "every loop iteration reads one opcode byte and leaves on an empty read", iteration_paths=niter, eof_paths=neof)
+        ob.require(niter >= 1 and neof >= 1, "one-byte opcode read with EOF test not found in the dispatch loop")
         loops = 0
         for f in sorted(set(reg.values()), key=lambda f: f.qualname):
             reach = [repo.funcs[q] for q in repo.reachable([f.qualname]) if repo.funcs[q].cls is not None and repo.funcs[q].cls.name == "Unserializer"]
